@@ -79,8 +79,31 @@ def gen_specs_for(rng, tv, want):
     return rng.choice(fams)
 
 
-def gen_scenario(rng, combos, buildable=False, with_requires=True, findings=False, rep=None):
-    """combos: list of (auto, libs_mode, incs_mode) with modes 'none' / 'empty' / 'some' - one package each."""
+# (shared, static): --enable/--disable-shared/static; decides what library() without a kind creates
+LIB_MODES = [(True, False), (True, True), (False, True)]
+
+
+def eff_kind(mode, kind):
+    """what a library of the script is: 'static', 'shared' or 'dual' (both, one object)"""
+    if kind == 'default':
+        sh, st = mode
+        return 'dual' if sh and st else ('shared' if sh else 'static')
+    return kind
+
+
+def lib_eff(sc, i):
+    return eff_kind(tuple(sc.get('mode', (True, False))), sc['libs'][i]['kind'])
+
+
+def forwards(sc, i):
+    """the library hands its own libraries and link options on to whoever links it (it has a static form)"""
+    return lib_eff(sc, i) in ('static', 'dual')
+
+
+def gen_scenario(rng, combos, buildable=False, with_requires=True, findings=False, rep=None, mode=(True, False)):
+    """combos: list of (auto, libs_mode, incs_mode) with modes 'none' / 'empty' / 'some' - one package each.
+    mode: the library mode the project is configured with."""
+    mode = tuple(mode)
     hdr_dirs = list(HDR_DIRS_SAFE if buildable else HDR_DIRS_SPECIAL)
     rng.shuffle(hdr_dirs)
     hdrs = []
@@ -93,14 +116,21 @@ def gen_scenario(rng, combos, buildable=False, with_requires=True, findings=Fals
     rng.shuffle(names)
     libs = []
     for i in range(rng.choice([3, 4, 5])):
-        kind = 'static' if (i < 2 or rng.random() < 0.65) else 'shared'
+        # every way of making a library: static_library(), shared_library(), library(kind='dual'), library() (kind by mode)
+        if i < 2 or rng.random() < 0.65:
+            kind = rng.choice(['static', 'static', 'dual', 'dual', 'default'])
+        else:
+            kind = rng.choice(['shared', 'shared', 'default', 'dual'])
+        fw = eff_kind(mode, kind) in ('static', 'dual')
         deps = []
-        if i and (kind == 'static' or not buildable):
+        if i and (fw or not buildable):
             deps = sorted(rng.sample(range(i), rng.choice([0, 1, 1, 2]) if i > 1 else rng.choice([0, 1])))
-        lo = rng.sample(FWD_LINK_OPTIONS, rng.choice([0, 0, 1, 2])) if kind == 'static' else []
+        lo = rng.sample(FWD_LINK_OPTIONS, rng.choice([0, 0, 1, 2])) if fw else []
         libs.append({'id': i, 'name': names[i], 'kind': kind, 'deps': deps, 'lopts': lo})
+        if rep is not None:
+            rep.count('sys:lib:%s(%s)%s' % (kind, eff_kind(mode, kind), ',deps' if deps else ''))
     sc = {'pname': rng.choice(['proj', 'my-proj']), 'pversion': rng.choice([None, '1.2', '3']), 'hdrs': hdrs, 'libs': libs,
-          'buildable': buildable, 'actions': []}
+          'buildable': buildable, 'actions': [], 'mode': list(mode)}
     pkgs = []
     opt_pool = list(OPTIONS)
     rng.shuffle(opt_pool)
@@ -174,9 +204,23 @@ def pkgs_of(sc):
     return [a[1] for a in sc['actions'] if a[0] == 'pkg']
 
 
-def lib_file(l):
+def lib_files(sc, l):
+    """[(file, variant)] the library is built as; variant 1: archive, 0: shared object"""
     d, b = os.path.split(l['name'])
-    return os.path.join(d, 'lib' + b + ('.a' if l['kind'] == 'static' else '.so'))
+    k = lib_eff(sc, l['id'])
+    return [(os.path.join(d, 'lib' + b + ext), v) for ext, v, ks in (('.so', 0, ('shared', 'dual')), ('.a', 1, ('static', 'dual')))
+            if k in ks]
+
+
+def obj_id(sc, i):
+    """Object identifiers (model and tie): 3 * library + 0 shared library file, + 1 static library file, + 2 the dual-use
+    object library(kind='dual') returns (its halves are 3i and 3i + 1).  What the script calls l<i>:"""
+    return 3 * i + {'shared': 0, 'static': 1, 'dual': 2}[lib_eff(sc, i)]
+
+
+def static_pref(sc, j):
+    """the form of library j that a static library (or the static half of a dual-use one) records as its dependency"""
+    return 3 * j + (0 if lib_eff(sc, j) == 'shared' else 1)
 
 
 def hdr_macro(h):
@@ -216,7 +260,9 @@ def bfg_text(sc):
             kw += ', libs=[%s]' % ', '.join('l%d' % d for d in l['deps'])
         if l['lopts']:
             kw += ', link_options=%r' % l['lopts']
-        out.append('l%d = %s_library(%r, %r%s)' % (l['id'], l['kind'], l['name'], 'src_%d.c' % l['id'], kw))
+        fn, extra = {'static': ('static_library', ''), 'shared': ('shared_library', ''), 'dual': ('library', ", kind='dual'"),
+                     'default': ('library', '')}[l['kind']]
+        out.append('l%d = %s(%r, %r%s%s)' % (l['id'], fn, l['name'], 'src_%d.c' % l['id'], kw, extra))
     out.append("x0 = executable('tool', 'tool.c')")
 
     def objs(pre, ids):
@@ -286,7 +332,7 @@ def ref_reach(sc, roots):
         if x in seen:
             continue
         seen.append(x)
-        if sc['libs'][x]['kind'] == 'static':
+        if forwards(sc, x):
             todo += sc['libs'][x]['deps']
     return seen
 
@@ -299,7 +345,7 @@ def ref_pkg(sc, p):
     lp = uniq(p['libs_private'] or [])
     reach = ref_reach(sc, libs + lp)
     priv = [x for x in reach if x not in libs]
-    fwd = [o for x in reach if sc['libs'][x]['kind'] == 'static' for o in sc['libs'][x]['lopts']]
+    fwd = [o for x in reach if forwards(sc, x) for o in sc['libs'][x]['lopts']]
     pub_names = uniq([n for n, _ in p['requires'] or []])
     priv_names = [n for n in uniq([n for n, _ in p['requires_private'] or []]) if n not in pub_names]
     specs = {}
@@ -343,11 +389,21 @@ class InProc:
         self.src, self.build = os.path.join(root, 'src'), os.path.join(root, 'build')
         os.makedirs(self.src)
         os.makedirs(self.build)
-        self.env = Environment(Path('/venv/bin', Root.absolute), 'make', None, abspath(self.src), abspath(self.build))
-        self.env.finalize({InstallRoot.prefix: Path('/opt/my prefix', Root.absolute)}, (True, False), False, [])
+        self.envs = {}
+
+    def env_for(self, mode):
+        """one real Environment per library mode"""
+        mode = tuple(mode)
+        if mode not in self.envs:
+            env = self.Environment(self.Path('/venv/bin', self.Root.absolute), 'make', None, self.abspath(self.src),
+                                   self.abspath(self.build))
+            env.finalize({self.InstallRoot.prefix: self.Path('/opt/my prefix', self.Root.absolute)}, mode, False, [])
+            self.envs[mode] = env
+        return self.envs[mode]
 
     def run(self, sc):
         import warnings
+        self.env = self.env_for(sc.get('mode', (True, False)))
         for d in (self.src, self.build):
             shutil.rmtree(d, ignore_errors=True)
             os.makedirs(d)
@@ -374,24 +430,37 @@ def frag_of_path(p):
 
 def observe_inproc(ip, sc, b):
     """-> (impl result in the shape of the decoded model result, model call argument)"""
-    from bfg9000.file_types import HeaderFile, HeaderDirectory, Library, PkgConfigPcFile
+    from bfg9000.file_types import HeaderFile, HeaderDirectory, Library, DualUseLibrary, PkgConfigPcFile
     hdr_by = {h['path']: h['id'] for h in sc['hdrs']}
-    lib_by = {lib_file(l): l['id'] for l in sc['libs']}
+    lib_by = {f: 3 * l['id'] + v for l in sc['libs'] for f, v in lib_files(sc, l)}
     inst = b['install']
 
     def hid(o):
         return hdr_by[o.path.suffix]
 
     def lid(o):
+        """object identifier of a real library object (see obj_id)"""
+        if isinstance(o, DualUseLibrary):
+            return 3 * (lib_by[o.shared.path.suffix] // 3) + 2
         return lib_by[o.path.suffix]
 
     # the script's objects, found through the edges / install table
     objs_h, objs_l = {}, {}
+
+    def note_lib(o, depth=0):
+        if lid(o) in objs_l or depth > 40:
+            return
+        objs_l[lid(o)] = o
+        for m in (o.all if isinstance(o, DualUseLibrary) else []):
+            note_lib(m, depth + 1)
+        fo = getattr(o, 'forward_opts', None)
+        for m in (fo.libs if fo else []):
+            note_lib(m, depth + 1)
     for o in list(inst.explicit) + list(inst) + [x for i in b['pkg_config'] for x in (i.includes or []) + (i.libs or []) + (i.libs_private or [])]:
         if isinstance(o, (HeaderFile, HeaderDirectory)):
             objs_h[hid(o)] = o
-        elif isinstance(o, Library):
-            objs_l[lid(o)] = o
+        elif isinstance(o, (Library, DualUseLibrary)):
+            note_lib(o)
     dirs = {}
 
     def dir_id(p):
@@ -407,9 +476,10 @@ def observe_inproc(ip, sc, b):
         t = inst.target.get(o)
         hdr_rows.append([i, dir_id(hdir(t)) if t is not None else 0, dir_id(hdir(o))])
     for i, o in sorted(objs_l.items()):
-        t = inst.target.get(o)
-        lib_rows.append([i, os.path.basename(sc['libs'][i]['name']), dir_id(t.path.parent()) if t is not None else 0,
-                         dir_id(o.path.parent())])
+        f = o.all[0]                   # of a dual-use library the writer takes the first (shared) file
+        t = inst.target.get(f)
+        lib_rows.append([i, os.path.basename(sc['libs'][i // 3]['name']), dir_id(t.path.parent()) if t is not None else 0,
+                         dir_id(f.path.parent())])
     dir_rows = [[v, json.loads(k)] for k, v in dirs.items()]
 
     def ids(f, v):
@@ -439,7 +509,7 @@ def observe_inproc(ip, sc, b):
     for o in inst.explicit:
         if isinstance(o, (HeaderFile, HeaderDirectory)):
             explicit.append([0, hid(o)])
-        elif isinstance(o, Library):
+        elif isinstance(o, (Library, DualUseLibrary)):
             explicit.append([1, lid(o)])
         elif not isinstance(o, PkgConfigPcFile):       # the written .pc files install themselves; not in the model
             explicit.append([2, 0])
@@ -451,20 +521,34 @@ def opt(v):
 
 
 def model_actions(sc):
+    """libraries are named by the identifier of the object the script variable holds (obj_id)"""
+    def objs(v):
+        return None if v is None else [obj_id(sc, i) for i in v]
     acts = []
     for kind, a in sc['actions']:
         if kind == 'install':
-            acts.append([0, [[{'h': 0, 'l': 1, 'x': 2}[t], i] for t, i in a]])
+            acts.append([0, [[{'h': 0, 'l': 1, 'x': 2}[t], obj_id(sc, i) if t == 'l' else i] for t, i in a]])
         else:
-            acts.append([1, [a['auto'], opt(a['name']), opt(a['version']), opt(a['includes']), opt(a['libs']),
-                             opt(a['libs_private']), a['options'], a['lopts'], a['lopts_private']]])
+            acts.append([1, [a['auto'], opt(a['name']), opt(a['version']), opt(a['includes']), opt(objs(a['libs'])),
+                             opt(objs(a['libs_private'])), a['options'], a['lopts'], a['lopts_private']]])
     return acts
 
 
 def model_call(sc, rows, uw):
     hdr_rows, lib_rows, dir_rows = rows
-    graph = [[l['id'], l['kind'] == 'static', l['deps'], l['lopts']] for l in sc['libs']]
-    return ('pcinfo.script', [sc['pname'], opt(sc['pversion']), model_actions(sc), graph, len(sc['libs']) + 2, hdr_rows,
+    # forward_opts per object: a static library file and a dual-use object (DualUseLibrary.forward_opts is that of its
+    # static half) hand on their libraries - each in the form a static link prefers - and their link options
+    graph = []
+    for l in sc['libs']:
+        i, k = l['id'], lib_eff(sc, l['id'])
+        fdeps = [static_pref(sc, j) for j in l['deps']]
+        if k in ('shared', 'dual'):
+            graph.append([3 * i, False, [], []])
+        if k in ('static', 'dual'):
+            graph.append([3 * i + 1, True, fdeps, l['lopts']])
+        if k == 'dual':
+            graph.append([3 * i + 2, True, fdeps, l['lopts']])
+    return ('pcinfo.script', [sc['pname'], opt(sc['pversion']), model_actions(sc), graph, 3 * len(sc['libs']) + 2, hdr_rows,
                               lib_rows, dir_rows, uw])
 
 
@@ -517,8 +601,11 @@ def stage_w_pcinfo(rep, rng, n):
     calls, impl, scs = [], [], []
     try:
         ip = InProc(root)
-        for combos in deal_combos(rng, n, 4):
-            sc = gen_scenario(rng, combos, with_requires=False, rep=None)
+        for k, combos in enumerate(deal_combos(rng, n, 4)):
+            sc = gen_scenario(rng, combos, with_requires=False, rep=None, mode=LIB_MODES[k % len(LIB_MODES)])
+            rep.count('pcinfo:mode=shared:%d,static:%d' % tuple(sc['mode']))
+            for l in sc['libs']:
+                rep.count('pcinfo:lib:%s(%s)' % (l['kind'], lib_eff(sc, l['id'])))
             try:
                 res, explicit, rows = observe_inproc(ip, sc, ip.run(sc))
             except Exception as e:         # a changed tree may raise anywhere; the model then disagrees
@@ -788,7 +875,9 @@ def stub_files(versions=None):
 
 
 def consumer(rep, P):
-    """thorough: after a real make, compile + link + run a program against an uninstalled package"""
+    """after a real make, compile + link + run a program against an uninstalled package: with the flags of
+    `--libs --static` as they are, and - when every library in the declared closure has a static form - with the
+    libraries forced to their archives (-Wl,-Bstatic), so that every private dependency is really needed"""
     sc = P.sc
     cands = [(p, r) for p, r in zip(pkgs_of(sc), P.refs) if P.resolvable(r['name']) and (r['includes'] or r['libs'])
              and not P.classes(r['name'])]
@@ -826,6 +915,21 @@ def consumer(rep, P):
             bad += 1
             rep.fail('a consumer of package %r [uninstalled] builds but exits with %d' % (r['name'], x.returncode), replay,
                      classes=P.classes(r['name']))
+        if all(forwards(sc, l) for l in r['libs'] + r['libs_private']) and r['libs']:
+            # static consumer: the archives of the package and of everything they need, nothing from shared objects
+            rep.count('sys:consumer-static')
+            lflags = [f for f in flags if f.startswith(('-L', '-l'))]
+            rest = [f for f in flags if f not in lflags]
+            c = subprocess.run(['gcc', 'main.c', '-o', 'main-static'] + rest + ['-Wl,-Bstatic'] + lflags + ['-Wl,-Bdynamic'],
+                               cwd=d, capture_output=True, text=True, timeout=120)
+            x = subprocess.run(['./main-static'], cwd=d, capture_output=True, timeout=60, env={'PATH': '/usr/bin:/bin'}) \
+                if c.returncode == 0 else None
+            if c.returncode != 0 or x.returncode != 0:
+                bad += 1
+                rep.fail('a static consumer of package %r [uninstalled] (libraries taken from their archives) %s with the flags '
+                         'of --libs --static %r: %s' % (r['name'], 'does not link' if c.returncode else 'exits with %d' % x.returncode,
+                                                        flags, c.stderr[-600:]),
+                         dict(replay, query='consumer-static'), classes=P.classes(r['name']))
     return bad
 
 
@@ -836,7 +940,9 @@ def run_project(rep, sc, thorough, prefix, expect_fail=None):
         os.makedirs(ext)
         project.write_tree(ext, stub_files())
         project.write_tree(s.src, files_of(sc))
-        rc, out = project.configure(s.src, s.build, extra_args=['--prefix=' + prefix], extra_env={'PKG_CONFIG_PATH': ext})
+        mode = tuple(sc.get('mode', (True, False)))
+        margs = ['--enable-shared' if mode[0] else '--disable-shared', '--enable-static' if mode[1] else '--disable-static']
+        rc, out = project.configure(s.src, s.build, extra_args=['--prefix=' + prefix] + margs, extra_env={'PKG_CONFIG_PATH': ext})
         rep.traces += 1
         replay = {'kind': 'system', 'scenario': sc, 'build.bfg': bfg_text(sc), 'prefix': prefix}
         if expect_fail is not None:
@@ -851,7 +957,7 @@ def run_project(rep, sc, thorough, prefix, expect_fail=None):
             return 1, False
         P = SysProject(sc, s.src, s.build, prefix, ext)
         bad = check_project(rep, P, thorough)
-        if sc['buildable'] and thorough:
+        if sc['buildable']:
             rc, _, out = project.make(s.build, stub_tools=False, timeout=600)
             if rc != 0:
                 rep.fail('make fails on a generated pkg_config project:\n%s\n%s' % (bfg_text(sc), out[-800:]), dict(replay, query='make'),
@@ -886,8 +992,11 @@ def stage_system(rep, rng, thorough, widen=1):
     bad = 0
     combos = deal_combos(rng, nproj, 5 if thorough else 4)
     for k, c in enumerate(combos):
-        buildable = thorough and k % 4 == 0
-        sc = gen_scenario(rng, c, buildable=buildable, findings=thorough and k % 6 == 5, rep=rep)
+        # thorough: every fourth project is built for real and consumed; quick: one
+        buildable = k % 4 == 0 if thorough else k == 1
+        # the library modes are dealt out in turn: each occurs in every run
+        sc = gen_scenario(rng, c, buildable=buildable, findings=thorough and k % 6 == 5, rep=rep, mode=LIB_MODES[k % len(LIB_MODES)])
+        rep.count('sys:mode=shared:%d,static:%d' % tuple(sc['mode']))
         prefix = '/opt/my prefix' if (thorough or k % 2 == 0) else '/opt/c17pre'
         b, _ = run_project(rep, sc, thorough, prefix)
         bad += b
